@@ -417,7 +417,7 @@ def run(chk, R, tier, seed):
     def on_program(rec, cs):
         check_ctor_events(chk, w, rec, "predefined")
 
-    n = 4000 if tier == "quick" else 100000
+    n = 10000 if tier == "quick" else 100000
     done = 0
     while done < n:
         m = min(n - done, 25000)
@@ -437,8 +437,8 @@ def run(chk, R, tier, seed):
         done += m
     wm = predefined_world({"EUR": 2, "USD": 2, "JPY": 0, "BHD": 3})
     run_cases(chk, R, [converter_program(chk, rng, wm, i)
-                       for i in range(30 if tier == "quick" else 1500)])
-    nw = 40 if tier == "quick" else 1200
+                       for i in range(60 if tier == "quick" else 1500)])
+    nw = 100 if tier == "quick" else 1200
     cases = []
     for wi in range(nw):
         plan, ww = random_plan(rng, noref=False, force_quantum=True)
